@@ -34,12 +34,13 @@ int lltd_port_memcmp(const void *a, const void *b, size_t n) { return memcmp(a, 
 void lltd_port_sleep_ms(uint32_t ms) { (void)ms; }
 int lltd_port_send_frame(void *c, const void *f, size_t n) { (void)f; (void)n; atomic_fetch_add(&((rctx *)c)->sends, 1); return 0; }
 int lltd_port_get_mtu(void *c, size_t *o) { (void)c; *o = 1500; return 0; }
-int lltd_port_get_icon_image(void **d, size_t *s) { (void)d; (void)s; return -1; }
-int lltd_port_get_friendly_name(void **d, size_t *s) { (void)d; (void)s; return -1; }
+/* large properties are present: each call hands over a fresh block, as the port contract says */
+int lltd_port_get_icon_image(void **d, size_t *s) { *s = 2000; *d = malloc(*s); if (!*d) return -1; memset(*d, 0x5a, *s); return 0; }
+int lltd_port_get_friendly_name(void **d, size_t *s) { *s = 24; *d = malloc(*s); if (!*d) return -1; memset(*d, 0x41, *s); return 0; }
 size_t lltd_port_get_hostname(void *d, size_t n) { (void)d; (void)n; return 0; }
 size_t lltd_port_get_support_url(void *d, size_t n) { (void)d; (void)n; return 0; }
 int lltd_port_get_upnp_uuid(uint8_t o[16]) { (void)o; return -1; }
-size_t lltd_port_get_hw_id(void *d, size_t n) { (void)d; (void)n; return 0; }
+size_t lltd_port_get_hw_id(void *d, size_t n) { size_t k = n < 30 ? n : 30; memset(d, 0x48, k); return k; }
 int lltd_port_get_mac_address(void *c, ethernet_address_t *o) { memcpy(o->a, ((rctx *)c)->mac, 6); return 0; }
 uint32_t lltd_port_get_characteristics_flags(void *c) { (void)c; return 0; }
 int lltd_port_get_if_type(void *c, uint32_t *o) { (void)c; *o = 6; return 0; }
@@ -78,7 +79,7 @@ static void *loop(void *arg) {
             buf[34] = 1; buf[35] = 0; buf[36] = 2; buf[41] = (uint8_t)(0x60 + c->id); memcpy(buf + 42, c->mac, 6);
             buf[48] = 0; buf[49] = 0; buf[50] = 2; buf[55] = (uint8_t)(0x70 + c->id); memcpy(buf + 56, c->mac, 6);
         }
-        else if (i % 11 == 3) { mkframe(buf, c->mac, 0x0B, 2 + i, 0); buf[32] = 17; }
+        else if (i % 11 == 3 || i % 13 == 2) { static const uint8_t ty[3] = { 17, 19, 14 }; mkframe(buf, c->mac, 0x0B, 2 + i, 0); buf[32] = ty[(i / 3) % 3]; buf[34] = 0; buf[35] = (uint8_t)((i % 2) * 8); }   /* friendly name, hardware id, icon: the large-property paths */
         else mkframe(buf, c->mac, 4, 0, i);
         parseFrame(buf, c);
     }
